@@ -138,6 +138,50 @@ def run(ctx):
     r = tlc.run_tlc("C01_Search", c, workers=4, coverage=False)
     ctx.add_tlc(r, "iterator interleavings (model)")
 
+    # ---- 2c. statement level: the pruned backtracking search as a stack machine ---------------
+    #      TLC checks the design (sound, ordered, prefix order-isomorphic, complete, terminating) and must
+    #      refute the off-by-one cut; the real search is traced (sys.settrace, calls of the nested function)
+    #      and its sequence of (i, k) frames is compared with the machine's pushes (drift only).
+    bt_perm = 4 if quick else 5
+    bjobs = []
+    for sh in range(4):
+        k = {"MinPatt": 0, "MaxPatt": 3, "MinPerm": 0, "MaxPerm": bt_perm, "Shard": sh, "NShards": 4, "CutSlack": 0}
+        bjobs.append(("C01_Backtrack", util.cfg(spec="Spec", invariants=["Sound", "LexOrdered", "PrefixIsOccurrence", "Nested", "Complete", "EmitDone"],
+                                                 properties=["Terminates"], constants=k), {"workers": 2, "timeout": 3000}))
+    k = {"MinPatt": 1, "MaxPatt": 2, "MinPerm": 1, "MaxPerm": 3, "Shard": 0, "NShards": 1, "CutSlack": 1}
+    bjobs.append(("C01_Backtrack", util.cfg(spec="Spec", invariants=["Complete"], constants=k), {"workers": 2, "timeout": 3000, "allow_violation": True}))
+    bres = tlc.run_many(bjobs, parallel=5)
+    if bres[-1].violated != "Complete":
+        raise tlc.MachineryFailure("C01_Backtrack vacuous: the off-by-one cut was not refuted")
+    ctx.add_tlc(bres[-1], "backtracking machine, off-by-one cut (refuted)")
+    import sys as _sys
+    nfr = 0
+    for r in bres[:-1]:
+        ctx.add_tlc(r, "backtracking machine")
+        for rec in r.records:
+            frames = []
+            seen_frames = []          # generator frames are re-entered on every next(): count each frame once
+
+            def tracer(frame, event, arg):
+                if event == "call" and frame.f_code.co_name == "occurrences" and frame.f_code.co_filename.endswith("perm.py"):
+                    if not any(f is frame for f in seen_frames):
+                        seen_frames.append(frame)
+                        frames.append([frame.f_locals.get("i"), frame.f_locals.get("k")])
+                return None
+            P, Q = Perm(rec["p"]), Perm(rec["q"])
+            _sys.settrace(tracer)
+            try:
+                got = [list(t) for t in P.occurrences_in(Q)]
+            finally:
+                _sys.settrace(None)
+            nfr += 1
+            ctx.case(("bt", tuple(rec["p"]), tuple(rec["q"])), nontrivial=len(rec["pushes"]) > 1)
+            if got != rec["out"]:
+                ctx.violation({"kind": "state", "p": rec["p"], "q": rec["q"]}, "ReplyIsListing", rec["out"], got)
+            if frames and frames != rec["pushes"]:
+                ctx.drift("search frames for %s in %s are %s, the machine pushes %s" % (rec["p"], rec["q"], frames[:8], rec["pushes"][:8]))
+    ctx.note("backtracking_runs_traced", nfr)
+
     # ---- 3. code -> spec: recorded executions validated by Trace_C01 ----------------
     rnd = util.rng(ctx, 1)
     events = []
